@@ -22,11 +22,13 @@ package validation
 //@ ensures[config:samesite-validated] len(result) == 0 ==> o.SameSite == "" || o.SameSite == "none" || o.SameSite == "lax" || o.SameSite == "strict"
 //@ ensures[config:cookie-name-at-most-256-bytes] len(result) == 0 ==> len(o.Name) <= 256
 //@ ensures[config:secret-present] len(result) == 0 ==> o.Secret != ""
+//@ ensures[config:cookie-name-valid] len(result) == 0 ==> validCookieName(o.Name)
 
 //@ func validateCookieName
 //@ nomod
 //@ prop C19 C18
 //@ ensures[long-names-are-rejected] len(name) > 256 ==> len(result) > 0
+//@ ensures[names-net-http-cannot-serialise-are-rejected] !validCookieName(name) ==> len(result) > 0
 
 //@ func validateCookieSecret
 //@ nomod
